@@ -112,8 +112,11 @@ def run(ctx, chk, tier):
             chk.hold("R09.2", "property:" + name, "%s = %s on %d path(s)" % (name, show(spec, 120), len(outs)))
     inverse_maps(ctx, chk)
     chk.floor("R09.2", 13 + 24, "13 properties + 24 inverse maps")
-    # R09.3: AUC with easy samples = AUC of the materialised object: the AUC formula and its Mann-Whitney / step-area value on
-    # representatives with easy counts (C07 rules)
+    from_labels_forwarding(ctx, chk)
+    # prerequisite: the threshold setters and rates do not modify caller arrays (a target array may be reused for the materialised object)
+    from . import c10
+    c10.purity(ctx, chk, only=("Scores.threshold_at_", "Scores.cm", "Scores.auc", "Scores.tpr", "Scores.fnr", "Scores.tnr", "Scores.fpr", "Scores.topr", "Scores.tonr"))
+    # R09.3: AUC with easy samples = AUC of the materialised object (C07 rules incl. easy-count representatives)
     from . import c07
     c07.structural(ctx, chk)
     c07.numeric(ctx, chk, tier)
@@ -157,3 +160,34 @@ def inverse_maps(ctx, chk, metrics=METRICS):
                                   "(target - m_min)/(m_max - m_min) = %s" % show(w, 260), ctx.where(q))
             if ok:
                 chk.hold("R09.2", inst, "hard-sample target = (r - %s)/(%s)" % (show(mmin, 80), show(sub(mmax, mmin), 80)))
+
+
+def from_labels_forwarding(ctx, chk):
+    """R09.4 construction through from_labels forwards the easy counts and flags unchanged."""
+    ev = ctx.ev
+    labels, scores_, pl = Sym("labels", ("param", "array", "notnone")), Sym("scores", ("param", "array", "notnone")), Sym("pos_label", ("param_scalar", "notnone"))
+    Ea, Eb, Sc, Ec, Is = Sym("e_pos_arg", ("int", "notnone")), Sym("e_neg_arg", ("int", "notnone")), Sym("sc_arg", ("str", "notnone")), Sym("ec_arg", ("str", "notnone")), Sym("is_sorted_arg", ("notnone",))
+    seen = []
+
+    def stub(ev_, fi, bound):
+        seen.append(dict(bound))
+        return Const(None)
+    ev.stubs[SCORES + ".__init__"] = stub
+    try:
+        fl = ev.getattr(ev.global_value(ctx.db.module("score_analysis.scores"), "Scores"), "from_labels")
+        ctx.explore(lambda: ev.call(fl, [labels, scores_], {"pos_label": pl, "nb_easy_pos": Ea, "nb_easy_neg": Eb, "score_class": Sc, "equal_class": Ec, "is_sorted": Is}), chk)
+    finally:
+        ev.stubs.pop(SCORES + ".__init__", None)
+    from ..terms import compare
+    flq = SCORES + ".from_labels"
+    if len(seen) != 1:
+        chk.unknown("R09.4", "Scores.from_labels constructs %d objects" % len(seen))
+    else:
+        b = seen[0]
+        want = {"pos": App("getitem", (scores_, compare("==", labels, pl))), "neg": App("getitem", (scores_, compare("!=", labels, pl))),
+                "nb_easy_pos": Ea, "nb_easy_neg": Eb, "score_class": Sc, "equal_class": Ec, "is_sorted": Is}
+        bad = [(k, b.get(k), w) for k, w in want.items() if b.get(k) is None or not same(b.get(k), w)]
+        if not bad:
+            chk.hold("R09.4", "from_labels", "from_labels forwards both easy counts, both flags and is_sorted; pos/neg split by == / != pos_label")
+        for k, g, w in bad:
+            chk.violation("R09.4", flq, "forward:" + k, show(g, 100) if g is not None else "missing", show(w, 100), ctx.where(flq))
